@@ -309,6 +309,10 @@ func handleHotRestart(s *Session, hdr header, buf []byte) (int, bool, error) {
 	epochID := binary.BigEndian.Uint64(buf[:epochIDLen])
 	s.logger.warnf("%s [epoch:%d] receive hot restart", s.sessionName(), epochID)
 
+	if s.manager == nil {
+		s.logger.warnf("%s [epoch:%d] ignore hot restart, the session has no SessionManager", s.sessionName(), epochID)
+		return headerSize + epochIDLen, false, nil
+	}
 	s.dispatcher.post(func() {
 		s.manager.handleEvent(typeHotRestart, &sessionManagerHotRestartParams{epoch: epochID, session: s})
 	})
@@ -323,6 +327,10 @@ func handleHotRestartAck(s *Session, hdr header, buf []byte) (int, bool, error) 
 	epochID := binary.BigEndian.Uint64(buf[:epochIDLen])
 	s.logger.warnf("%s [epoch:%d] receive hot restart ack", s.name, epochID)
 
+	if s.listener == nil {
+		s.logger.warnf("%s [epoch:%d] ignore hot restart ack, the session has no Listener", s.name, epochID)
+		return headerSize + epochIDLen, false, nil
+	}
 	s.listener.mu.Lock()
 	defer s.listener.mu.Unlock()
 
